@@ -148,6 +148,11 @@ package ast
 //@   at call Buffer.WriteByte: assert {no.hand.made.quoting.of.string.content} value.Kind != ValueKindString
 //@   at call? Buffer.WriteString: assert {no.hand.made.quoting.of.string.content} value.Kind != ValueKindString
 //@   ensures {a.string.literal.is.rendered.by.the.json.encoder.or.escaped.and.quoted} value.Kind == ValueKindString && result == nil ==> g_encoded || g_wrapped
+//@   ghost var g_noDefault bool = false
+//@   at call? Document.variableDefaultValue: ghost g_noDefault = !result1
+//@   ghost var g_provided bool = false
+//@   at call jsonparser.Get: ghost g_provided = result3 == nil
+//@   at call Buffer.Write: assert {a.variable.the.request.does.not.provide.is.null.only.if.it.has.no.default.value} value.Kind == ValueKindVariable && !g_provided ==> g_noDefault
 //@   modifies *
 //@   safety none
 
@@ -327,3 +332,9 @@ package ast
 //@   ensures {the.refs.before.stay.the.refs.after.move.up} (forall k in 0..index :: (*refs)[k] == old((*refs)[k])) && (forall k in index..len(*refs) :: (*refs)[k] == old((*refs)[k + 1]))
 //@   ensures {the.array.a.walker.may.be.ranging.over.is.not.written} forall k in 0..old(len(*refs)) :: old(*refs)[k] == old((*refs)[k])
 //@   modifies *refs
+
+//@ func Document.variableDefaultValue
+//@   requires d != nil
+//@   at call Document.VariableDefinitionNameString: assert {only.variable.definitions.of.operations.still.in.the.document.are.consulted} isLiveVariableDefinition(d, arg1)
+//@   pure
+//@   safety no-bounds
